@@ -81,7 +81,7 @@ def execute(acc, case):
         boundaries.append(t)
     chunks = segmentation(rng, len(stream), boundaries, case["seg"])
     sc = N.Scenario(seed=case["seed"], strategy=case["strategy"], p=case.get("p", 0.1), role=case["role"], apps=[16777251],
-                    lines=case["strategy"] != "rr", max_steps=case.get("max_steps", 1_500_000))
+                    lines=case["strategy"] != "rr", max_steps=case.get("max_steps", 600_000))
     delivered = []
     wit = {"case": case, "chunks": chunks[:60], "kinds": kinds, "stream_len": len(stream)}
     with sc:
